@@ -429,6 +429,13 @@ func c08(c *Ctx) {
 		c08Fail(c, "c08/scan-hang", "FileQueue.scanFile needs seconds (or never returns) on files of a few KB; byte-level sweep and store oracles abandoned", nil)
 		return
 	}
+	// ---------- (c) the pending index of the queue: real setIndex/delIndex/emptyFile vs the model ----------
+	qbase := base
+	if dir := filepath.Dir(scanPath); strings.HasPrefix(dir, "/dev/shm/") {
+		qbase = dir // thousands of tiny fsyncs: tmpfs
+	}
+	c08QueueTie(c, qbase)
+
 	// ---------- (b) direct oracles on the real store ----------
 	c08Oracles(c, base)
 }
